@@ -7,6 +7,7 @@
 -/
 import UxVerif.Lemmas.Keyed
 import UxVerif.Lemmas.Rows
+import UxVerif.Lemmas.Parts
 import UxVerif.Model.Aggregate
 
 namespace UxVerif.C17
@@ -120,7 +121,20 @@ theorem agg_rejects (c : Centre) (d : Dest) :
     (dispatch c d = .toEdge ↔ c = .node ∧ d = .edge) := by
   cases c <;> cases d <;> simp [dispatch]
 
+/-- **`get_face_node_partitions` is correct for every `argsort` tie-breaking**: whatever
+    permutation sorts the face sizes, the partition data group the faces by size. -/
+theorem parts_ok_any_argsort (N perm : List Nat) (h : SortsBy N perm) :
+    PartsOK N.length N (partsOf N perm) := partsOf_ok N perm h
+
+/-- **end to end**: with the partitions computed from ANY sorting permutation of the face sizes,
+    the aggregation equals the per-face reduction over exactly each face's corner nodes. -/
+theorem agg_face_eq_any_argsort (red : List α → β) (data : Int → α) (t : Table) (N perm : List Nat)
+    (hN : N.length = t.length) (h : SortsBy N perm) :
+    aggFace red data t (partsOf N perm) = faceRef red data t N :=
+  agg_face_eq red data t N (partsOf N perm) (hN ▸ partsOf_ok N perm h)
+
 /-! ### non-vacuity -/
+example : SortsBy [4, 3, 4, 3, 5] [3, 1, 0, 2, 4] := by decide
 /-- a triangle and a quad in "wrong" order, partitions as numpy returns them -/
 example : PartsOK 3 [4, 3, 4] { change := [0, 1, 3], perm := [1, 0, 2], sizes := [3, 4] } := by
   decide
